@@ -98,3 +98,21 @@ pub fn idle(left: Option<Duration>) -> bool {
     // the deadline itself: one more look, then the caller sees the time-out
     true
 }
+
+/// An event loop outside compio parks on a descriptor of the driver (the polling driver's epoll instance)
+/// until it is readable: in a multi-threaded run the thread gives the baton away and looks again whenever
+/// another thread has done something or the time-out has passed. Returns whether the descriptor became readable.
+pub fn park_on_fd(fd: i32, timeout: Duration) -> bool {
+    let deadline = with_kernel(|k| k.clock_ns).saturating_add(timeout.as_nanos() as u64);
+    let mut looked_only = false;
+    loop {
+        if crate::ops::poll_ready(fd, libc::POLLIN) != 0 {
+            return true;
+        }
+        if !crate::multi::active() || with_kernel(|k| k.clock_ns) >= deadline {
+            return false;
+        }
+        crate::multi::wait_in_kernel(Some(deadline), looked_only);
+        looked_only = true;
+    }
+}
